@@ -329,6 +329,12 @@ pub fn classify(out: &Outcome) -> Option<(String, String)> {
     match out {
         Outcome::Answer(a) => {
             if let Some(site) = a.strip_prefix("panic ") {
+                // an assertion / overflow inside tiny-skia's rasteriser (scan converter, alpha runs) is one defect of
+                // the dependency whatever resvg function handed it the huge coordinates: no call site in the signature
+                if site.starts_with("tiny-skia-#.#.#/src/scan/") || site.starts_with("tiny-skia-#.#.#/src/alpha_runs.rs") {
+                    let core = site.split("_@").next().unwrap_or(site);
+                    return Some((format!("dep:{}", core), format!("render panicked inside the rasteriser of the dependency: {}", site)));
+                }
                 Some((format!("panic:{}", site), format!("render panicked: {}", site)))
             } else {
                 None
